@@ -78,7 +78,7 @@ func (b branchSpec) schema() M {
 
 func init() {
 	register("C11", func(c *engine.Ctx) {
-		c.Rule = "allOf / anyOf of 1..4 object branches, inline or given by $ref to object definitions, with disjoint property sets, one identically declared shared property, or (allOf) one shared string property on which every branch puts a DIFFERENT constraint keyword (minLength / maxLength / pattern: the conjunction must hold), each branch with its own required list and bounds; for every subset S of the branches a document that satisfies exactly the branches in S (the others fail by one exceeded bound or one missing required key, never by a type error). Plus definitions shared by several compositions (3-4 definitions over a pool of identically declared keys with overlapping required lists in random order, used by $ref in 2-3 allOf compositions at property / array-item positions; every single deletion of a required key at every composed position). Verdict must equal the reference; the generated outer type must expose the union of the branches' properties. Distinct = distinct (kind, branch count, subset, verdicts)."
+		c.Rule = "allOf / anyOf of 1..4 object branches, inline or given by $ref to object definitions, with disjoint property sets, one identically declared shared property, or one shared string property on which every branch puts a DIFFERENT constraint keyword (minLength / maxLength / pattern: the conjunction must hold), each branch with its own required list and bounds; for every subset S of the branches a document that satisfies exactly the branches in S (the others fail by one exceeded bound or one missing required key, never by a type error). Plus definitions shared by several compositions (3-4 definitions over a pool of identically declared keys with overlapping required lists in random order, used by $ref in 2-3 allOf compositions at property / array-item positions; every single deletion of a required key at every composed position). Verdict must equal the reference; the generated outer type must expose the union of the branches' properties. Distinct = distinct (kind, branch count, subset, verdicts)."
 		c.Proofs([]string{"GJS.Props.C11"}, []string{
 			"GJS.Props.C11.anyBranch_iff", "GJS.Props.C11.anyOf_validator_rejects_iff", "GJS.Props.C11.merge_required",
 			"GJS.Props.C11.mergeEntry_keys", "GJS.Props.C11.mergeKvs_keys", "GJS.Props.C11.mergeKvs_disjoint_lookup",
@@ -96,7 +96,7 @@ func init() {
 			for n := 1; n <= 4; n++ {
 				for _, viaRef := range []bool{false, true} {
 					for _, shared := range []string{"none", "identical", "complementary"} {
-						if shared == "complementary" && (kind != "allOf" || n < 2) {
+						if shared == "complementary" && n < 2 {
 							continue
 						}
 						for rep := 0; rep < reps; rep++ {
